@@ -51,16 +51,20 @@ fn observe(log: &[Rec]) -> Obs {
 }
 
 fn one(st: &mut Stats, seed: u64, i_s: u64, t_s: u64, script: Script, reverse_order: bool, peer_ping_ms: u64) {
+    one_ms(st, seed, i_s * 1000, t_s * 1000, script, reverse_order, peer_ping_ms);
+}
+
+/// interval and timeout in milliseconds (0 = disabled)
+fn one_ms(st: &mut Stats, seed: u64, i_ms: u64, t_ms: u64, script: Script, reverse_order: bool, peer_ping_ms: u64) {
     st.evaluations += 1;
     st.engine("SIM", 1);
     let mut rng = Rng64::new(mix(seed, 0x16));
-    let cfg = EpCfg { keepalive: Some((i_s, t_s)), keepalive_timeout_first: reverse_order, rwnd: 4, bind_buf: 4, ..EpCfg::default() };
-    let tp_ms = if t_s == 0 { u64::MAX } else { t_s.max(i_s) * 1000 };
-    let i_ms = i_s * 1000;
+    let cfg = EpCfg { keepalive: Some((i_ms, t_ms)), keepalive_timeout_first: reverse_order, rwnd: 4, bind_buf: 4, ..EpCfg::default() };
+    let tp_ms = if t_ms == 0 { u64::MAX } else { t_ms.max(i_ms) };
     let sh = sim::Shared::new(mix(seed, 5), rng.below(3) as u8);
-    let horizon_ms = if i_s == 0 { 3_000_000 } else { 2000 * i_ms };
+    let horizon_ms = if i_ms == 0 { 3_000_000 } else { 2000 * i_ms };
     let script2 = script.clone();
-    let expect_timeout = i_s > 0 && t_s > 0 && !reverse_order && matches!(script, Script::Rounds { .. } | Script::Never);
+    let expect_timeout = i_ms > 0 && t_ms > 0 && !reverse_order && matches!(script, Script::Rounds { .. } | Script::Never);
     let kind = format!("{}{}", format!("{script:?}").split(|c| c == ' ' || c == '{').next().unwrap_or(""), if peer_ping_ms > 0 { "+peer-pings" } else { "" });
     let end = sim::run_with_watchdog(&sh, Duration::from_millis(horizon_ms + 10_000_000), move |sh| async move {
         let (w0, w1, _net) = memws::pair(&sh, [0, 0], [None, None], false);
@@ -153,10 +157,10 @@ fn one(st: &mut Stats, seed: u64, i_s: u64, t_s: u64, script: Script, reverse_or
     });
     let log = sh.take_log();
     let o = observe(&log);
-    let cfgs = format!("I={i_s}s T={t_s}s{}", if reverse_order { " (timeout set before interval)" } else { "" });
+    let cfgs = format!("I={i_ms}ms T={t_ms}ms{}", if reverse_order { " (timeout set before interval)" } else { "" });
     let mut fail = |st: &mut Stats, sig: String, detail: String| {
         st.violation(Violation { signature: sig, detail: format!("{detail} [{cfgs}, script {script:?}{}]", if peer_ping_ms > 0 { format!(", peer sends its own Ping every {peer_ping_ms} ms") } else { String::new() }),
-            replay: json!({"kind": "c16", "run_seed": seed, "I": i_s, "T": t_s, "script": format!("{script:?}"), "reverse_order": reverse_order, "peer_ping_every_ms": peer_ping_ms,
+            replay: json!({"kind": "c16", "run_seed": seed, "I_ms": i_ms, "T_ms": t_ms, "script": format!("{script:?}"), "reverse_order": reverse_order, "peer_ping_every_ms": peer_ping_ms,
                 "pings_ms": o.pings.iter().take(12).map(|t| t / 1000).collect::<Vec<_>>(), "pongs_ms": o.pongs.iter().take(12).map(|t| t / 1000).collect::<Vec<_>>(),
                 "task_return": o.ret.as_ref().map(|(t, r)| format!("{r} at {} ms", t / 1000)), "trace_tail": sim::render(&log, 40)}) });
     };
@@ -182,7 +186,7 @@ fn one(st: &mut Stats, seed: u64, i_s: u64, t_s: u64, script: Script, reverse_or
         return;
     }
     // K4 disabled
-    if i_s == 0 {
+    if i_ms == 0 {
         st.target("disabled_runs", 1);
         if !o.pings.is_empty() {
             fail(st, "ping-while-disabled".into(), format!("{} Pings were sent with keepalive disabled", o.pings.len()));
@@ -261,7 +265,7 @@ fn one(st: &mut Stats, seed: u64, i_s: u64, t_s: u64, script: Script, reverse_or
         }
     }
     if st.samples.len() < 3 {
-        st.sample(json!({"I_s": i_s, "T_s": t_s, "script": format!("{script:?}"), "pings_ms": o.pings.iter().take(6).map(|t| t / 1000).collect::<Vec<_>>(),
+        st.sample(json!({"I_ms": i_ms, "T_ms": t_ms, "script": format!("{script:?}"), "pings_ms": o.pings.iter().take(6).map(|t| t / 1000).collect::<Vec<_>>(),
             "pongs_ms": o.pongs.iter().take(6).map(|t| t / 1000).collect::<Vec<_>>(), "task_return": o.ret.as_ref().map(|(t, r)| format!("{r} at {} ms", t / 1000)), "pending_ops": outcomes.map(|v| v.into_iter().map(|(n, r)| format!("{n}={r:?}")).collect::<Vec<_>>())}));
     }
 }
@@ -311,7 +315,33 @@ pub fn run(p: &Params) -> (Stats, &'static str) {
             }
         }
     }
-    st.exhaustive.push("(I,T) in {1,2,3,5,10,60}^2 x 12 pong-script kinds (delays seeded)".into());
+    // intervals and timeouts that are not whole seconds (the clamp T' = max(T, I) compares full durations)
+    let sub: [(u64, u64); 12] = [(500, 1000), (1500, 2000), (900, 1100), (250, 1750), (2500, 3000), (700, 700), (1200, 800), (999, 1001), (1001, 1999), (100, 60_000), (1900, 1100), (750, 2250)];
+    let sub_reps = if p.tier_thorough { 100 } else { 1 };
+    for rep in 0..sub_reps {
+        for (i_ms, t_ms) in sub {
+            for kind in [0u32, 2, 4, 7] {
+                idx += 1;
+                if idx % p.nshards != p.shard {
+                    continue;
+                }
+                let seed = mix(base, mix(0x5B5, idx));
+                let mut rng = Rng64::new(seed);
+                let tp = t_ms.max(i_ms);
+                let script = match kind {
+                    0 => Script::Always { d_ms: *rng.pick(&[0, 1, tp / 2, tp - 1, tp]) },
+                    2 => Script::Rounds { k: rng.range(1, 5) as u32, d_ms: rng.range(0, tp) },
+                    4 => Script::Never,
+                    _ => Script::AlwaysVar { delays_ms: vec![0, tp] },
+                };
+                one_ms(&mut st, seed, i_ms, t_ms, script, false, 0);
+                st.cell("I_T", format!("{i_ms}ms/{t_ms}ms"));
+                st.target("sub_second_runs", 1);
+                let _ = rep;
+            }
+        }
+    }
+    st.exhaustive.push("(I,T) in {1,2,3,5,10,60}^2 x 12 pong-script kinds (delays seeded); 12 (I,T) pairs that are not whole seconds x 4 kinds".into());
     // disabled keepalive, timeout disabled, reverse builder order (probe)
     if p.shard == 0 {
         for (j, t_s) in [0u64, 5, 60].into_iter().enumerate() {
